@@ -101,6 +101,62 @@ static json observe(json const &cmd)
   return o;
 }
 
+
+// ---- typed round trips through cvm::memory_stream (C11)
+static json memstream_case(json const &cmd)
+{
+  json r;
+  json const &items = cmd.at("items");
+  cvm::memory_stream os;
+  json wl = json::array();
+  for (auto const &it : items) {
+    std::string t = it.at("t");
+    if (t == "u8") { unsigned char v = it["v"].get<int>(); os << v; }
+    else if (t == "i32") { int v = it["v"].get<int>(); os << v; }
+    else if (t == "i64") { long long v = it["v"].get<long long>(); os << v; }
+    else if (t == "f64") { double v = it["v"].get<double>(); os << v; }
+    else if (t == "str") { std::string v = it["v"].get<std::string>(); os << v; }
+    else if (t == "vu8") { std::vector<unsigned char> v; for (int x : it["v"]) v.push_back(x); os << v; }
+    else if (t == "vi32") { std::vector<int> v = it["v"].get<std::vector<int>>(); os << v; }
+    else if (t == "vi64") { std::vector<long long> v = it["v"].get<std::vector<long long>>(); os << v; }
+    else if (t == "vf64") { std::vector<double> v = it["v"].get<std::vector<double>>(); os << v; }
+    else if (t == "v1d") { std::vector<double> v = it["v"].get<std::vector<double>>(); cvm::vector1d<cvm::real> a(v.size()); for (size_t i = 0; i < v.size(); i++) a[i] = v[i]; os << a; }
+    wl.push_back(os.length());
+  }
+  r["wlen"] = wl;
+  r["wok"] = bool(os);
+  std::vector<unsigned char> buf(os.output_buffer(), os.output_buffer() + os.length());
+  if (cmd.contains("truncate")) { size_t k = cmd["truncate"]; if (k < buf.size()) buf.resize(k); }
+  if (cmd.contains("patch")) {
+    size_t off = cmd["patch"]["off"];
+    unsigned long long val = std::stoull(cmd["patch"]["u64"].get<std::string>());
+    if (off + 8 <= buf.size()) std::memcpy(buf.data() + off, &val, 8);
+  }
+  cvm::memory_stream is(buf.size(), buf.data());
+  json rl = json::array();
+  for (auto const &it : items) {
+    std::string t = it.at("t");
+    json o;
+    if (t == "u8") { unsigned char v = 0; is >> v; o["v"] = int(v); }
+    else if (t == "i32") { int v = 0; is >> v; o["v"] = v; }
+    else if (t == "i64") { long long v = 0; is >> v; o["v"] = v; }
+    else if (t == "f64") { double v = 0; is >> v; o["v"] = v; }
+    else if (t == "str") { std::string v; is >> v; o["v"] = v; }
+    else if (t == "vu8") { std::vector<unsigned char> v; is >> v; json a = json::array(); for (auto x : v) a.push_back(int(x)); o["v"] = a; }
+    else if (t == "vi32") { std::vector<int> v; is >> v; o["v"] = v; }
+    else if (t == "vi64") { std::vector<long long> v; is >> v; o["v"] = v; }
+    else if (t == "vf64") { std::vector<double> v; is >> v; o["v"] = v; }
+    else if (t == "v1d") { cvm::vector1d<cvm::real> a; is >> a; json l = json::array(); for (size_t i = 0; i < a.size(); i++) l.push_back(a[i]); o["v"] = l; }
+    o["ok"] = bool(is);
+    o["pos"] = is.tellg();
+    rl.push_back(o);
+    if (!is) break;
+  }
+  r["reads"] = rl;
+  r["buflen"] = buf.size();
+  return r;
+}
+
 static std::string workdir;
 
 static json handle(json const &cmd)
@@ -171,6 +227,7 @@ static json handle(json const &cmd)
   }
 #endif
   if (op == "quit") { if (P) { delete P; P = nullptr; } r["rc"] = 0; return r; }
+  if (op == "memstream") { json m = memstream_case(cmd); m["op"] = op; return m; }
   if (op == "mkdir") {
     std::string d = cmd.at("dir");
     mkdir(d.c_str(), 0755);
@@ -352,7 +409,7 @@ int main(int argc, char **argv)
     } catch (std::exception const &e) {
       r = json{{"op", "exception"}, {"what", e.what()}};
     }
-    std::cout << r.dump() << "\n";
+    std::cout << r.dump(-1, ' ', false, json::error_handler_t::replace) << "\n";
     std::cout.flush();
   }
   return 0;
